@@ -19,6 +19,11 @@ INPLACE_RNG_METHODS = {"random_", "uniform_", "normal_", "bernoulli_", "exponent
 
 def resolve_ext(prog, mod, expr):
     """Dotted external name an expression (Name / Attribute chain) refers to, else None."""
+    # dynamic imports with a literal module name: __import__('random').x / importlib.import_module('random').x
+    if isinstance(expr, ast.Attribute) and isinstance(expr.value, ast.Call) and expr.value.args and isinstance(expr.value.args[0], ast.Constant) and isinstance(expr.value.args[0].value, str):
+        fn = ast.unparse(expr.value.func)
+        if fn in ("__import__", "importlib.import_module", "import_module"):
+            return expr.value.args[0].value + "." + expr.attr
     try:
         r = prog.resolve_expr_static(mod, expr)
     except Exception:
